@@ -300,6 +300,17 @@ def check(ctx):
     bsg = method(repo, mc, "_build_simulation_graph")
     rg = evaluate(repo, bsg)
     appends = [(t, cond) for t, _, cond in rg.calls if t[1][0] == "a" and t[1][2] == "append"]
+    if not appends:
+        # the edge list as one comprehension over (node, input) pairs: its element is what
+        # the loop would append
+        node_c = ("iter", n("nodes"))
+        comps = {x for t, _, _ in rg.calls for x in subterms(t)
+                 if x[0] == "comp" and x[1] == "list" and len(x[3]) == 2
+                 and x[3][0][1] == n("nodes") and not x[3][0][2] and not x[3][1][2]
+                 and x[3][1][1] == ("call", ("a", node_c, "all_input_nodes"), (), ())}
+        if len(comps) == 1:
+            comp = next(iter(comps))
+            appends = [(("call", ("a", n("edges"), "append"), (comp[2],), ()), ())]
     if len(appends) == 1 and appends[0][0][2] and appends[0][0][2][0][0] in ("phi", "ifexp"):
         # one append of a conditionally chosen edge: an append per alternative
         def _arms(t_, cond_):
